@@ -275,6 +275,23 @@ func runCheck(repo, verif, prop, tier string, verbose bool) int {
 	}
 	loadS := time.Since(t0).Seconds()
 	fcs := e.functionsForProperty(prop)
+	implicit := map[string]bool{}
+	if prop == "C19" {
+		// data-race freedom concerns every function that touches guarded state, whether or not its
+		// contract says so: all functions under contract are examined, and their guard / atomicity
+		// obligations (which carry C19) are collected
+		have := map[string]bool{}
+		for _, fc := range fcs {
+			have[fc.Key] = true
+		}
+		for _, k := range sortedKeys(e.contracts.funcs) {
+			fc := e.contracts.funcs[k]
+			if !fc.Assumed && !have[k] && e.fnByKey[k] != nil {
+				fcs = append(fcs, fc)
+				implicit[k] = true
+			}
+		}
+	}
 	if len(fcs) == 0 {
 		fmt.Printf("UNDECIDED property=%s reason=%q\n", prop, "no function under contract lists this property")
 		writeUndecided(evPath, prop, tier, seed, "no function under contract", time.Since(t0).Seconds())
@@ -317,7 +334,7 @@ func runCheck(repo, verif, prop, tier string, verbose bool) int {
 			}
 		}
 		perFn[fc.Key] = n
-		if n == 0 {
+		if n == 0 && !implicit[fc.Key] {
 			undecided = append(undecided, "function "+fc.Key+" generated no obligation for "+prop+" (vacuity guard)")
 		}
 		for _, u := range r.Undecided {
